@@ -428,12 +428,23 @@ func (f *Flooder) floodAdvertisementEncrypted(
 		fwdDisplayName = ""
 	}
 
+	// Every hop adds one to the metric, so that the metric a receiver stores
+	// (wire metric + 1) equals the length of the path it records. The routes we
+	// received carry the previous hop's distance; forward them with ours.
+	fwdRoutes := make([]protocol.Route, len(routes))
+	for i, r := range routes {
+		if r.Metric < ^uint16(0) {
+			r.Metric++
+		}
+		fwdRoutes[i] = r
+	}
+
 	// Build the advertise payload with extended path
 	adv := &protocol.RouteAdvertise{
 		OriginAgent:       originAgent,
 		OriginDisplayName: fwdDisplayName,
 		Sequence:          sequence,
-		Routes:            routes,
+		Routes:            fwdRoutes,
 		EncPath:           fwdEncPath,
 		SeenBy:            seenBy,
 	}
@@ -734,8 +745,10 @@ func (f *Flooder) SendFullTable(peerID identity.AgentID) {
 		domainOriginRoutes := domainByOrigin[originAgent]
 
 		routes := make([]protocol.Route, 0, len(cidrRoutes)+len(agentPresenceRoutes)+len(forwardOriginRoutes)+len(domainOriginRoutes))
+		ownHops := make([]int, 0, cap(routes)) // length of the path each route was learned over
 		for _, r := range cidrRoutes {
 			routes = append(routes, routeToProtocol(r))
+			ownHops = append(ownHops, len(r.Path))
 		}
 		for _, r := range agentPresenceRoutes {
 			routes = append(routes, protocol.Route{
@@ -744,6 +757,7 @@ func (f *Flooder) SendFullTable(peerID identity.AgentID) {
 				Prefix:        protocol.EncodeAgentPrefix(r.AgentID),
 				Metric:        r.Metric,
 			})
+			ownHops = append(ownHops, len(r.Path))
 		}
 		for _, r := range forwardOriginRoutes {
 			routes = append(routes, protocol.Route{
@@ -752,6 +766,7 @@ func (f *Flooder) SendFullTable(peerID identity.AgentID) {
 				Prefix:        protocol.EncodeForwardKeyWithTarget(r.Key, r.Target),
 				Metric:        r.Metric,
 			})
+			ownHops = append(ownHops, len(r.Path))
 		}
 		for _, r := range domainOriginRoutes {
 			prefixLen := uint8(0)
@@ -764,6 +779,7 @@ func (f *Flooder) SendFullTable(peerID identity.AgentID) {
 				Prefix:        protocol.EncodeDomainPrefix(r.Pattern),
 				Metric:        r.Metric,
 			})
+			ownHops = append(ownHops, len(r.Path))
 		}
 
 		// Use the path from the first available route
@@ -780,6 +796,17 @@ func (f *Flooder) SendFullTable(peerID identity.AgentID) {
 			path = append([]identity.AgentID{f.localID}, domainOriginRoutes[0].Path...)
 		default:
 			path = []identity.AgentID{f.localID}
+		}
+
+		// The advertisement carries this one path for the whole group and the
+		// receiver records it for every route in it. A route of the group that we
+		// learned over a path of a different length (agent presence routes are
+		// kept per next hop) is advertised with the metric it has over the
+		// advertised path, so that metric and recorded path agree at the receiver.
+		for i := range routes {
+			if own := ownHops[i]; own != len(path)-1 && int(routes[i].Metric) >= own {
+				routes[i].Metric = routes[i].Metric - uint16(own) + uint16(len(path)-1)
+			}
 		}
 
 		// Get display name for origin agent.
